@@ -257,7 +257,8 @@ namespace AIToolbox::MDP {
 
     template <IsExperience E>
     void ThompsonModel<E>::sync(const size_t s, const size_t a) {
-        if constexpr (IsExperienceEigen<E>) {
+        // Sparse visit tables have no array() view: they take the manual path below.
+        if constexpr (IsExperienceEigen<E> && requires (const E e) { e.getVisitsTable(0).row(0).array(); }) {
             sampleDirichletDistribution(
                 // Here we add the Jeffreys prior
                 //
